@@ -4,6 +4,7 @@ import (
 	"fmt"
 	"go/ast"
 	"go/token"
+	"sort"
 	"strings"
 
 	"gcv/internal/an"
@@ -207,6 +208,7 @@ func checkC05(r *core.Run) {
 		guardOb(r, p, "R-C05-body", key, what, an.GuardSpec{Fn: post, Match: m, Fail: postFail})
 	}
 	gb("weight", "weight above 4,000,000 is rejected", an.MatchCmpConst(4000000, token.GTR, "~.BlockWeight"))
+	c05Weight(r, p)
 	gb("first-is-coinbase", "a first transaction that is not a coinbase is rejected", func(iff *ssa.If) (bool, bool) {
 		ok, f := an.MatchBoolCall(false, "(*lib/btc.Tx).IsCoinBase")(iff)
 		if !ok {
@@ -737,4 +739,91 @@ func keysOf(m map[int64]bool) []int64 {
 		out = append(out, k)
 	}
 	return out
+}
+
+// c05Weight: the weight compared with the limit is 4*(80 + size of the transaction count) plus, for
+// every transaction, 3*size-without-witness + full size, on both paths of BuildTxListExt (with and
+// without hashing), whether it is accumulated in the field or in the workers' shared counter.
+func c05Weight(r *core.Run, p *core.Program) {
+	const rule = "R-C05-body"
+	fn := p.Func("lib/btc.(*Block).BuildTxListExt")
+	if fn == nil {
+		r.Fail(rule, "weight/formula", "-", "BuildTxListExt not found")
+		return
+	}
+	strip := func(e string) string {
+		for _, c := range []string{"uint64(", "uint32(", "uint(", "int(", "int64("} {
+			e = strings.ReplaceAll(e, c, "(")
+		}
+		return e
+	}
+	const base = "(4 * (80 + (lib/btc.VLenSize((param#0.TxCount)))))"
+	var inits, incs, odd []string
+	accs := map[ssa.Value]bool{} // local accumulators copied into the field at the end
+	classify := func(v ssa.Value, self string, where string) {
+		e := strip(an.Expr(v))
+		switch {
+		case e == base:
+			inits = append(inits, where)
+		case strings.HasPrefix(e, "("+self+" + "):
+			incs = append(incs, strings.TrimSuffix(strings.TrimPrefix(e, "("+self+" + "), ")"))
+		default:
+			if cv, ok := v.(*ssa.Convert); ok {
+				if ld, ok := cv.X.(*ssa.UnOp); ok && ld.Op == token.MUL {
+					if al, ok := ld.X.(*ssa.Alloc); ok {
+						accs[al] = true
+						return
+					}
+				}
+			}
+			odd = append(odd, e)
+		}
+	}
+	for _, f := range an.WithClosures(fn) {
+		an.Instrs(f, func(i ssa.Instruction) {
+			if st, ok := i.(*ssa.Store); ok {
+				if fa, ok := st.Addr.(*ssa.FieldAddr); ok {
+					if fl, _ := an.FieldOf(fa); fl == "lib/btc.Block.BlockWeight" {
+						classify(st.Val, "param#0.BlockWeight", p.Pos(st.Pos()))
+					}
+				}
+			}
+		})
+	}
+	for al := range accs {
+		for _, f := range an.WithClosures(fn) {
+			an.Instrs(f, func(i ssa.Instruction) {
+				switch x := i.(type) {
+				case *ssa.Store:
+					if x.Addr == al {
+						if e := strip(an.Expr(x.Val)); e == base {
+							inits = append(inits, p.Pos(x.Pos()))
+						} else {
+							odd = append(odd, e)
+						}
+					}
+				case *ssa.Call:
+					if strings.HasPrefix(an.CallName(x), "sync/atomic.Add") && len(x.Call.Args) == 2 {
+						a0 := x.Call.Args[0]
+						if a0 == al || strings.HasPrefix(an.Expr(a0), "free:") {
+							incs = append(incs, strip(an.Expr(x.Call.Args[1])))
+						}
+					}
+				}
+			})
+		}
+	}
+	// every increment is 3*T.NoWitSize + T.Size of one transaction T
+	okInc := len(incs) >= 2
+	for _, e := range incs {
+		e = strings.TrimPrefix(strings.TrimSuffix(e, ")"), "(")
+		e = strings.TrimPrefix(strings.TrimSuffix(e, ")"), "(")
+		parts := strings.SplitN(e, ".NoWitSize) + ", 2)
+		if len(parts) != 2 || !strings.HasPrefix(parts[0], "(3 * ") || parts[1] != strings.TrimPrefix(parts[0], "(3 * ")+".Size" {
+			okInc = false
+			odd = append(odd, "increment "+e)
+		}
+	}
+	sort.Strings(odd)
+	r.Check(len(inits) == 2 && okInc && len(odd) == 0, rule, "weight/formula", p.Pos(fn.Pos()), fmt.Sprintf("both paths start from 4*(80+size of the count) and add 3*NoWitSize+Size per transaction (%d starts, %d increments)", len(inits), len(incs)), fmt.Sprintf("block weight: %d start value(s) equal to 4*(80+VLenSize(TxCount)) (2 expected), %d increment(s); other forms: %s", len(inits), len(incs), strings.Join(odd, " ; ")))
 }
